@@ -157,7 +157,7 @@ pub fn property(tier: Tier) -> Property {
         }));
     }
     Property {
-        id: "C08",
+        id: "C08", scale: tier.pick(4, 2),
         stages,
         assumptions: vec!["only well-formed inputs: terms produced by the parser from model terms, invocations returned by the API".into()],
     }
